@@ -108,11 +108,15 @@ class C07:
                     P.fail(S, "blinding-zero-or-repeated", "zero or repeated blinding within one transcript", [c[0]])
             # commitments
             cm = P.rand_msgs(rng, 2)
-            lines = ["commit %s %s" % (suite, tl(cm))] * n_rep + ["commit %s L" % suite] * (n_rep // 3)
+            # ... to two messages, to the EMPTY list and with the list ABSENT: the blinding factor is drawn in every case
+            lines = ["commit %s %s" % (suite, tl(cm))] * n_rep + ["commit %s L" % suite] * (n_rep // 3) + ["commit %s N" % suite] * (n_rep // 3)
             res = S.run(lines, expect="ok", label="commit-repeat")
-            for r in res:
+            for r, l_ in zip(res, lines):
                 note_draws(r)
-                if r.status == "OK": elems["C"].append(r.b(0)[:48]); elems["blind"].append(r.b(1))
+                if r.status == "OK":
+                    elems["C"].append(r.b(0)[:48]); elems["blind"].append(r.b(1))
+                    if r.b(1) == bytes(32) or r.b(0)[:48] == pyc.G1_ID:
+                        P.fail(S, "blinding-zero-or-repeated", "zero blinding factor / identity commitment", [l_])
             # one commitment to 40 messages: witness-side recomputation of s~, m~_1..m~_40 from the responses
             cmL = P.rand_msgs(rng, 40)
             rs = S.run(["ms2s %s %s %s" % (suite, tl(cmL), tb(pyc.API_BLIND[suite]))], expect="ok", label="triv:ms2s")[0]
@@ -558,8 +562,27 @@ class C10:
             add("ms2s %s %s %s" % (suite, tl([P.rb(rng, n) for n in (0, 1, 32, 64, 200)]), tb(pyc.API[suite])), "ms2s")
             add("sk2pk %s %s" % (suite, tb(pyc.sc(rng.randrange(1, pyc.R)))), "sk2pk")
             add("sk2pk %s %s" % (suite, tb(bytes(32))), "sk2pk-zero")
+            # sign at message counts around every power of two up to 128 (a fast path switched on by the count would sit there) and at
+            # the counts of the fixtures: octets equal to the reference's; the decisions on them follow below
+            skd = pyc.sc(rng.randrange(1, pyc.R)); 
+            rk = S.run(["sk2pk %s %s" % (suite, tb(skd))], expect="ok", label="triv:sk2pk")[0]
+            if rk.status == "OK":
+                for Lc in ([0, 1, 2, 3, 4, 5, 7, 8, 9, 10, 11, 15, 16, 17, 31, 32, 33, 63, 64, 65, 127, 128, 129] if tier == "quick" else list(range(0, 70)) + [127, 128, 129, 255, 256, 257, 511, 512, 513, 1000]):
+                    ms_ = [P.rb(rng, rng.choice([0, 1, 7, 32])) for _ in range(Lc)]
+                    hd_ = rng.choice(["N", "S", "S" + P.rb(rng, 5).hex()])
+                    add("sign %s %s %s %s %s" % (suite, tb(skd), tb(rk.b(0)), hd_, tl(ms_)), "sign-count")
         stats["differential"] = len(lines)
-        S.run(lines, label=labs)
+        res_d = S.run(lines, label=labs)
+        # ... and the verifier's decision on each of those signatures and on the same signature with its LAST / FIRST message replaced
+        vl = []; vlab = []
+        for l_, lab_, r_ in zip(lines, labs, res_d):
+            if lab_ == "sign-count" and r_.status == "OK":
+                t_ = l_.split(" ")
+                vl.append("verify %s %s %s %s %s" % (t_[1], t_[3], tb(r_.b(0)), t_[4], t_[5])); vlab.append("verify(sign-count)")
+                if t_[5] not in ("L", "N") and len(t_[5]) > 1:
+                    vl.append("verify %s %s %s %s %s" % (t_[1], t_[3], tb(r_.b(0)), t_[4], t_[5] + "ff")); vlab.append("verify(sign-count):last-message-extended")
+        stats["differential"] += len(vl)
+        if vl: S.run(vl, label=vlab)
         # decisions on honest and mutated artefacts, shuffled over 16 threads
         for suite in P.SUITES:
             keys = P.make_keys(S, suite, 2)
